@@ -281,14 +281,17 @@ pub fn make_scenario(prop: &str, run_seed: u64, thorough: bool) -> Scenario {
         }
         "C06" => {
             let conc = w.chance(1, 3);
-            let program = generate::gen_cyclic_program(&mut w, false);
+            let with_fw = { let mut fr = root.split(label("cyclic-fw")); fr.chance(1, 5) };
+            let program = generate::gen_cyclic_program(&mut w, with_fw);
             let ops = generate::gen_cyclic_history(&mut w, &program, conc);
             Scenario {
                 program,
                 ops,
                 cfg: RunCfg {
                     storage: Storage::Mem,
-                    strict: false,
+                    // firewalls in cyclic programs only with the warm-up pass (free mode
+                    // meets KF-C01-1, whose exposure model does not cover cycles)
+                    strict: with_fw,
                     yield_every: if s.chance(1, 4) { Some(s.below(3) as usize) } else { None },
                     sched: if s.chance(1, 2) {
                         SchedCfg::Off
@@ -376,6 +379,12 @@ fn fault_name(sc: &Scenario) -> Option<String> {
         }),
         _ => None,
     })
+}
+
+/// KF-C06-1: every failure of a cyclic-mode run whose program has a static
+/// dependency cycle through a firewall belongs to that finding
+fn kf_c06_1(sc: &Scenario) -> Option<String> {
+    (sc.cfg.cyclic && sc.program.static_cycle_through_firewall()).then(|| "KF-C06-1".to_string())
 }
 
 fn is_panic_fault(sc: &Scenario) -> bool {
@@ -631,7 +640,7 @@ fn batch(args: &[String]) {
                 decisions: None,
                 class: "stuck".into(),
                 message: "the simulation thread made no progress (blocked or spinning inside the code under test); wall-clock backstop".into(),
-                known: None,
+                known: kf_c06_1(&sc),
                 kill_at: None,
             };
             *CURRENT_RUN.lock().unwrap() =
@@ -718,6 +727,7 @@ fn replay(args: &[String]) -> i32 {
         let limit = simkit::env_u64("VERIF_STUCK_S", 20);
         let expected = rf.class.clone();
         let path = path.clone();
+        let known = kf_c06_1(&rf.scenario);
         std::thread::spawn(move || {
             std::thread::sleep(std::time::Duration::from_secs(limit));
             let reproduced = expected == "stuck";
@@ -725,7 +735,7 @@ fn replay(args: &[String]) -> i32 {
                 "{}",
                 serde_json::json!({"type": "replay", "file": path, "expected_class": expected,
                     "class": "stuck", "message": format!("the simulation thread made no progress for {limit} s of wall-clock time (blocked or spinning inside the code under test)"),
-                    "known": null, "reproduced": reproduced, "exposed": null})
+                    "known": known, "reproduced": reproduced, "exposed": null})
             );
             std::process::exit(if reproduced { 0 } else { 3 });
         });
